@@ -656,6 +656,10 @@ class Mir:
                 self.allocs_static[m.group(1)] = m.group(2)
             i += 1
 
+    def add_synthetic(self, text):
+        """add harness functions written in MIR syntax (drivers around crate functions)"""
+        self._parse(text)
+
     def _parse_function(self, lines, i0, i1):
         hdr = lines[i0]
         if hdr.startswith('fn '):
